@@ -281,6 +281,12 @@ func WorkerMain(t *testing.T, props map[string]*Prop) {
 		for sub, prog := range progs {
 			t0 := time.Now()
 			oc := pr.Engine(t, prog, simrt.NewDecider(seed^0x5bd1e995), verbose)
+			if verbose {
+				for _, l := range oc.Log {
+					fmt.Fprintln(os.Stderr, l)
+				}
+				fmt.Fprintf(os.Stderr, "trouble=%q viol=%v\n", oc.Trouble, oc.Viol)
+			}
 			line := &RunLine{Prop: id, Index: idx, Sub: sub, Seed: seed, Outcome: oc, WallMs: ms(t0), Avoid: avoid}
 			if (done < 3 && sub < 2) || len(oc.Viol) > 0 {
 				line.Brief = prog.Brief()
